@@ -20,6 +20,12 @@ Extracted (fail closed on any other shape):
   (a new data attribute is refused).  Whether the `Charge.array` property stores the array derived from the particles
   back into `_array` (e_read_stores).  An `empty()` override in a Detector subclass (CCD / CMOS / MKID / APD) must call
   `super().empty(reset)` first and must not touch the six containers.
+* the readout loop of `exposure.run_pipeline` and of its deprecated copy `_run_exposure_pipeline_deprecated`: one
+  `for i, (time, step) in enumerate(zip(rp.times, rp.steps))` whose body stores time / time_step / pipeline_count from the
+  loop variables and calls `detector.empty(<flag>)` once, before `processor.run_pipeline`; -> e_init_reset (is there a
+  plain `detector.empty()` between set_readout and the loop), e_loop_reset (what <flag> says: `not
+  detector.non_destructive_readout`, directly / through a local variable / through an if-else = LIfDestructive, ...),
+  e_old_loop_same (the deprecated loop has the same shape).
 * `Detector.set_readout(times, start_time, non_destructive)` -> sr_policy: the body is the single store
   `self._readout_properties = ReadoutProperties(times=times, start_time=start_time,
   non_destructive=non_destructive)` (SRAlwaysNew), or that store under `if self._readout_properties is None:`
@@ -357,21 +363,28 @@ def _class(tree: ast.Module, name: str) -> ast.ClassDef:
 
 
 def _check_init_attrs(cls: ast.ClassDef, pieces: dict, other: set) -> None:
-    """The attributes __init__ creates are the known ones: a new data attribute would be a piece of state the
-    model does not carry (and empty() might not reset)."""
+    """The attributes the class stores on its instances -- in __init__ or in any other method -- are the known ones:
+    a new data attribute would be a piece of state the model does not carry (and empty() might not reset)."""
     inits = [n for n in cls.body if isinstance(n, ast.FunctionDef) and n.name == "__init__"]
     if len(inits) != 1:
         fail(cls, f"{cls.name}.__init__: found {len(inits)}")
-    for n in ast.walk(inits[0]):
+    # assignments that go through a property setter of the class (self.array = ..., self.array_3d = ...)
+    props = {n.name for n in cls.body if isinstance(n, ast.FunctionDef)
+             and any(ast.unparse(d) in ("property", f"{n.name}.setter") for d in n.decorator_list)} | {"array"}
+    for n in ast.walk(cls):
         tg = []
         if isinstance(n, ast.Assign):
             tg = n.targets
         elif isinstance(n, (ast.AnnAssign, ast.AugAssign)):
             tg = [n.target]
+        elif isinstance(n, ast.Call) and ast.unparse(n.func) in ("setattr", "object.__setattr__") and n.args \
+                and ast.unparse(n.args[0]) == "self":
+            fail(n, f"{cls.name}: setattr on self")
         for t in tg:
-            if isinstance(t, ast.Attribute) and isinstance(t.value, ast.Name) and t.value.id == "self":
-                if t.attr not in pieces and t.attr not in other:
-                    fail(n, f"{cls.name}.__init__ creates an attribute the model does not know")
+            for t1 in (t.elts if isinstance(t, (ast.Tuple, ast.List)) else [t]):
+                if isinstance(t1, ast.Attribute) and isinstance(t1.value, ast.Name) and t1.value.id == "self":
+                    if t1.attr not in pieces and t1.attr not in other and t1.attr not in props:
+                        fail(n, f"{cls.name} stores an attribute the model does not know")
 
 
 def _container_prog(repo: Path, cname: str) -> list:
@@ -387,6 +400,7 @@ def _container_prog(repo: Path, cname: str) -> list:
         brel, bpieces, bother = CONTAINERS["ArrayBase"]
         base = _class(parse(repo, brel), "ArrayBase")
         _check_init_attrs(base, bpieces, bother)
+        _check_init_attrs(cls, {"_array": pieces["_array"]}, bother)
         if not own:
             own = [n for n in base.body if isinstance(n, ast.FunctionDef) and n.name == "empty"]
     else:
@@ -450,8 +464,156 @@ def _check_subclass_empty(repo: Path) -> None:
                 if isinstance(n, ast.Attribute) and isinstance(n.value, ast.Name) and n.value.id == "self" and \
                         n.attr.lstrip("_") in BUCKETS:
                     fail(st, f"{cname}.empty touches a container of the base detector")
-                if isinstance(n, (ast.Return, ast.Raise)):
-                    fail(st, f"{cname}.empty: unexpected control flow")
+                if isinstance(n, ast.Raise):
+                    fail(st, f"{cname}.empty: raises")
+
+
+# ------------------------------------------------------------------------------------------ the run loop
+
+CLOCK_ATTRS = {"time": 0, "time_step": 1, "pipeline_count": 2}
+
+
+def _flatten_with(fn):
+    """Statements of the function body with the bodies of top-level `with` blocks spliced in."""
+    out = []
+    for st in body_no_doc(fn):
+        if isinstance(st, ast.With):
+            out += list(st.body)
+        else:
+            out.append(st)
+    return out
+
+
+def _reset_policy(arg, loop_body, call_stmt) -> str:
+    """Which readouts make the per-step detector.empty(<arg>) a full reset."""
+    ND = "detector.non_destructive_readout"
+    alt = (ND, "detector.readout_properties.non_destructive")
+    if arg is None:
+        return "LAlways"
+    t = ast.unparse(arg)
+    if t in ("True", "reset=True"):
+        return "LAlways"
+    if t == "False":
+        return "LNever"
+    if t in tuple(f"not {a}" for a in alt):
+        return "LIfDestructive"
+    if t in alt:
+        return "LIfNonDestructive"
+    if isinstance(arg, ast.Name):
+        # the one definition of the local variable, placed in the loop body before the call
+        defs = []
+        for st in loop_body:
+            if st is call_stmt:
+                break
+            if isinstance(st, (ast.Assign, ast.AnnAssign)):
+                tg = st.targets if isinstance(st, ast.Assign) else [st.target]
+                if any(ast.unparse(x) == arg.id for x in tg) and st.value is not None:
+                    defs.append(_reset_policy(st.value, [], None))
+            elif isinstance(st, ast.If) and any(isinstance(n, ast.Name) and n.id == arg.id and isinstance(n.ctx, ast.Store)
+                                                for n in ast.walk(st)):
+                # if <nd>: v = False  else: v = True   (or the other way round)
+                ok = (ast.unparse(st.test) in alt and len(st.body) == 1 and len(st.orelse) == 1
+                      and all(isinstance(b, ast.Assign) and ast.unparse(b.targets[0]) == arg.id
+                              and isinstance(b.value, ast.Constant) and isinstance(b.value.value, bool)
+                              for b in (st.body[0], st.orelse[0])))
+                if not ok:
+                    fail(st, "run loop: unexpected definition of the reset flag")
+                a, b = st.body[0].value.value, st.orelse[0].value.value
+                defs.append({(False, True): "LIfDestructive", (True, False): "LIfNonDestructive",
+                             (True, True): "LAlways", (False, False): "LNever"}[(a, b)])
+        if len(defs) != 1:
+            fail(arg, f"run loop: {len(defs)} definitions of the reset flag before detector.empty")
+        return defs[0]
+    fail(arg, "run loop: unknown argument of the per-step detector.empty")
+
+
+def loop_shape(fn: ast.FunctionDef) -> tuple[bool, str]:
+    """(is there a full detector.empty() between set_readout and the loop, reset policy of the per-step empty).
+    The loop must iterate enumerate(zip(rp.times, rp.steps)) and store time / time_step / pipeline_count from the loop
+    variables, then call detector.empty(..), all before processor.run_pipeline."""
+    top = _flatten_with(fn)
+    loops = [k for k, st in enumerate(top) if isinstance(st, (ast.For, ast.While))]
+    if len(loops) != 1 or not isinstance(top[loops[0]], ast.For):
+        fail(fn, f"{fn.name}: expected exactly one for-loop over the readouts")
+    k = loops[0]
+    loop = top[k]
+    sr = [j for j, st in enumerate(top[:k]) if isinstance(st, ast.Expr) and isinstance(st.value, ast.Call)
+          and ast.unparse(st.value.func) == "detector.set_readout"]
+    if len(sr) != 1:
+        fail(fn, f"{fn.name}: set_readout before the loop")
+    init_reset = False
+    for st in top[sr[0] + 1:k]:
+        for n in ast.walk(st):
+            if isinstance(n, ast.Call) and ast.unparse(n.func) == "detector.empty":
+                if not (isinstance(st, ast.Expr) and st.value is n) or ast.unparse(n) not in (
+                        "detector.empty()", "detector.empty(True)", "detector.empty(reset=True)"):
+                    fail(st, f"{fn.name}: the reset before the loop must be the plain statement detector.empty()")
+                init_reset = True
+    for st in top[:sr[0]]:
+        if any(isinstance(n, ast.Call) and ast.unparse(n.func) == "detector.empty" for n in ast.walk(st)):
+            fail(st, f"{fn.name}: detector.empty before set_readout")
+    # header
+    tgt = ast.unparse(loop.target)
+    it = loop.iter
+    names = None
+    if (isinstance(loop.target, ast.Tuple) and len(loop.target.elts) == 2 and isinstance(loop.target.elts[0], ast.Name)
+            and isinstance(loop.target.elts[1], ast.Tuple) and len(loop.target.elts[1].elts) == 2
+            and all(isinstance(e, ast.Name) for e in loop.target.elts[1].elts)):
+        names = (loop.target.elts[1].elts[0].id, loop.target.elts[1].elts[1].id, loop.target.elts[0].id)
+    ok_iter = (isinstance(it, ast.Call) and ast.unparse(it.func) == "enumerate" and len(it.args) == 1 and not it.keywords
+               and isinstance(it.args[0], ast.Call) and ast.unparse(it.args[0].func) == "zip"
+               and [ast.unparse(a) for a in it.args[0].args] == ["detector.readout_properties.times",
+                                                                 "detector.readout_properties.steps"]
+               and all(kw.arg == "strict" for kw in it.args[0].keywords))
+    if names is None or not ok_iter or loop.orelse:
+        fail(loop, f"{fn.name}: the loop must be `for i, (time, step) in enumerate(zip(rp.times, rp.steps))`: {tgt}")
+    # body: the three stores, the per-step empty, then the pipeline
+    body = list(loop.body)
+    run = [j for j, st in enumerate(body) if any(isinstance(n, ast.Call) and ast.unparse(n.func) == "processor.run_pipeline"
+                                                  for n in ast.walk(st))]
+    if len(run) != 1 or not isinstance(body[run[0]], ast.Expr):
+        fail(loop, f"{fn.name}: processor.run_pipeline must be one plain statement of the loop body")
+    stores, empties = {}, []
+    for st in body[:run[0]]:
+        if isinstance(st, ast.Assign) and len(st.targets) == 1:
+            t = ast.unparse(st.targets[0])
+            for pre in ("detector.readout_properties.", "detector."):
+                if t.startswith(pre) and t[len(pre):] in CLOCK_ATTRS and "." not in t[len(pre):]:
+                    a = t[len(pre):]
+                    if a in stores or ast.unparse(st.value) != names[CLOCK_ATTRS[a]]:
+                        fail(st, f"{fn.name}: clock store")
+                    stores[a] = True
+                    break
+            else:
+                if t.startswith("detector."):
+                    fail(st, f"{fn.name}: unexpected store into the detector before the models run")
+            continue
+        calls = [n for n in ast.walk(st) if isinstance(n, ast.Call) and ast.unparse(n.func).startswith("detector.")]
+        for n in calls:
+            f = ast.unparse(n.func)
+            if f == "detector.empty":
+                if not (isinstance(st, ast.Expr) and st.value is n) or len(n.args) + len(n.keywords) > 1 or \
+                        any(kw.arg != "reset" for kw in n.keywords):
+                    fail(st, f"{fn.name}: the per-step detector.empty must be one plain statement")
+                arg = n.args[0] if n.args else (n.keywords[0].value if n.keywords else None)
+                empties.append(_reset_policy(arg, body, st))
+            elif not f.startswith("detector.readout_properties") and f not in ("detector.non_destructive_readout",):
+                fail(st, f"{fn.name}: unexpected call on the detector before the models run")
+            elif f.startswith("detector.readout_properties."):
+                fail(st, f"{fn.name}: unexpected call on the readout properties before the models run")
+    if set(stores) != set(CLOCK_ATTRS):
+        fail(loop, f"{fn.name}: the loop must store time, time_step and pipeline_count from its loop variables")
+    if len(empties) != 1:
+        fail(loop, f"{fn.name}: {len(empties)} per-step detector.empty calls before the models run")
+    for st in body[run[0] + 1:]:
+        for n in ast.walk(st):
+            if isinstance(n, ast.Call) and ast.unparse(n.func) in ("detector.empty", "detector.set_readout"):
+                fail(st, f"{fn.name}: detector.empty / set_readout after the models of a step")
+            if isinstance(n, ast.Attribute) and isinstance(n.ctx, ast.Store) and ast.unparse(n).startswith("detector.") \
+                    and ast.unparse(n).split(".")[-1] in CLOCK_ATTRS:
+                fail(st, f"{fn.name}: clock store after the models of a step")
+    return init_reset, empties[0]
+
 
 
 SR_PARAMS = ["times", "start_time", "non_destructive"]
@@ -551,9 +713,13 @@ def extract(repo: Path) -> dict:
     read_stores = _read_stores(repo)
     _check_subclass_empty(repo)
     sr = _set_readout_policy(find_func(t_det, "set_readout", "Detector"))
-    _check_run_pipeline_call(parse(repo, "pyxel/exposure/exposure.py"))
+    t_exp = parse(repo, "pyxel/exposure/exposure.py")
+    _check_run_pipeline_call(t_exp)
+    init_reset, loop_reset = loop_shape(find_func(t_exp, "run_pipeline"))
+    old_same = loop_shape(find_func(t_exp, "_run_exposure_pipeline_deprecated")) == (init_reset, loop_reset)
     return dict(g_ndarray=g_ndarray, g_ctor=g_ctor, g_set_times=g_set_times, g_set_start=g_set_start, g_rp=g_rp,
-                e_always=always, e_if_reset=if_reset, progs=progs, read_stores=read_stores, sr=sr)
+                e_always=always, e_if_reset=if_reset, progs=progs, read_stores=read_stores, sr=sr,
+                init_reset=init_reset, loop_reset=loop_reset, old_same=old_same)
 
 
 def _lst(xs) -> str:
@@ -578,7 +744,9 @@ def render(t: dict) -> str:
             "Definition src_empty : empty_table :=\n"
             f"  {{| e_always := {_lst(t['e_always'])}; e_if_reset := {_lst(t['e_if_reset'])};\n"
             f"{progs}"
-            f"     e_read_stores := {'true' if t['read_stores'] else 'false'} |}}.\n"
+            f"     e_read_stores := {'true' if t['read_stores'] else 'false'};\n"
+            f"     e_init_reset := {'true' if t['init_reset'] else 'false'}; e_loop_reset := {t['loop_reset']}; "
+            f"e_old_loop_same := {'true' if t['old_same'] else 'false'} |}}.\n"
             f"Definition src_set_readout : sr_policy := {t['sr']}.\n")
 
 
@@ -597,4 +765,4 @@ FALLBACK = render(dict(
     progs=dict(Scene=[[("CTrue", ["PScene"])]], Photon=[[("CTrue", ["PPhoton"])]],
                Charge=[[("CHolds PChargeFrame", ["PChargeFrame"])], [("CTrue", ["PChargeArr"])]],
                Pixel=[[("CTrue", ["PPixel"])]], Signal=[[("CTrue", ["PSignal"])]], Image=[[("CTrue", ["PImage"])]]),
-    read_stores=True, sr="SRAlwaysNew"))
+    read_stores=True, sr="SRAlwaysNew", init_reset=True, loop_reset="LIfDestructive", old_same=True))
